@@ -23,6 +23,9 @@ ASSUMPTIONS = ["the agreement of urllib's split with RFC 3986 Appendix B on clea
 
 _srv = None
 WEB, NATIVE = "client_1", "native_app"
+DYN_URIS = ["https://dyn.example.com/cb?tenant=blue", "https://dyn.example.com/cb2"]
+DYN_PL = "https://dyn.example.com/logout_cb?tenant=blue"
+DYN = None       # client_id of the dynamically registered client (set by server())
 REG = {
     WEB: [("https://rp.example.com/cb", None), ("https://rp.example.com/cb2", {"foo": ["bar"]}), ("https://rp.example.com:8443/deep/path;p=1", None)],
     NATIVE: [("http://127.0.0.1:8000/cb", None), ("http://[::1]/cb6", None), ("com.example.app:/oauth", None), ("https://app.example.com/cb", None)],
@@ -30,12 +33,27 @@ REG = {
 
 
 PLREG = [("https://rp.example.com/logout_cb", None), ("https://rp.example.com/logout2", {"foo": ["bar"]})]
+PLREGS = {None: PLREG}
 _lo = None
+_lo_dyn = None
+DYN_SECRET = None
 
 
-def logout_world():
+def logout_world(client=None):
     """one login of the web client: the session cookie and the ID token an RP-initiated logout refers to"""
-    global _lo
+    global _lo, _lo_dyn
+    if client == "dyn":
+        if _lo_dyn is None:
+            s = server()
+            ep = s.get_endpoint("authorization")
+            req = AuthorizationRequest(client_id=DYN, redirect_uri=DYN_URIS[1], scope=["openid"], state="st", response_type="code", nonce="nonce")
+            out = ep.process_request(ep.parse_request(req.to_dict()))
+            tep = s.get_endpoint("token")
+            pr = tep.parse_request(dict(client_id=DYN, client_secret=DYN_SECRET, redirect_uri=DYN_URIS[1], grant_type="authorization_code",
+                                        code=out["response_args"]["code"]))
+            tok = tep.process_request(pr)
+            _lo_dyn = {"cookie": [c for c in out["cookie"] if c["name"] == s.context.cookie_handler.name["session"]], "id_token": tok["response_args"]["id_token"]}
+        return _lo_dyn
     if _lo is None:
         s = server()
         out = opbase.authz(s, WEB, scope=("openid",), state="st")
@@ -54,12 +72,31 @@ def logout_world():
 def server():
     global _srv
     if _srv is None:
-        _srv = opbase.make_op()
+        from idpyoidc.server.oidc.read_registration import RegistrationRead
+        _srv = opbase.make_op(more_endpoints={"registration_read": {"path": "registration_read", "class": RegistrationRead,
+                                                                     "kwargs": {"client_authn_method": ["bearer_header"]}}})
         ctx = _srv.context
         ctx.cdb[WEB]["post_logout_redirect_uri"] = PLREG
         ctx.cdb[WEB]["redirect_uris"] = REG[WEB]
         ctx.cdb[NATIVE] = dict(ctx.cdb[WEB], client_id=NATIVE, redirect_uris=REG[NATIVE], application_type="native")
         ctx.keyjar.add_symmetric(NATIVE, ctx.cdb[NATIVE]["client_secret"])
+        # a client that registers itself (URIs with a query part), and reads its registration back before anything else happens
+        global DYN, DYN_SECRET
+        from idpyoidc.util import split_uri
+        from idpyoidc.server.oidc.read_registration import RegistrationRead
+        reg = _srv.get_endpoint("registration")
+        out = reg.process_request(reg.parse_request({"redirect_uris": DYN_URIS, "post_logout_redirect_uri": DYN_PL, "response_types": ["code"]}))
+        DYN = out["response_args"]["client_id"]
+        DYN_SECRET = out["response_args"]["client_secret"]
+        PLREGS["dyn"] = [(b, q or None) for b, q in [tuple(split_uri(DYN_PL))]]
+        REG["dyn"] = [(b, q or None) for b, q in (tuple(split_uri(u)) for u in DYN_URIS)]
+        rat = out["response_args"].get("registration_access_token")
+        rd = _srv.get_endpoint("registration_read")
+        if rd is not None and rat:
+            try:
+                rd.process_request(rd.parse_request(f"client_id={DYN}", http_info={"headers": {"authorization": "Bearer " + rat}}))
+            except Exception:
+                pass
     return _srv
 
 
@@ -72,7 +109,7 @@ def base_uri(entry):
 
 MUTS = ["same", "scheme_case", "userinfo", "host_suffix", "host_prefix", "port_add", "port_change", "path_extra", "dotseg", "pct_slash", "pct_tab_path",
         "pct_tab_host", "lead_space", "trail_space", "raw_tab", "extra_q", "blank_q", "dup_q", "reorder_q", "fragment", "pct_fragment", "params",
-        "empty_q", "trailing_slash", "pct_letter", "upper_host", "no_scheme", "backslash", "at_trick", "pct_q", "crlf", "double_slash", "port_zero", "bad_port", "empty"]
+        "empty_q", "trailing_slash", "pct_letter", "upper_host", "no_scheme", "backslash", "at_trick", "pct_q", "crlf", "double_slash", "port_zero", "bad_port", "empty", "drop_q", "other_q"]
 
 
 def mutate(rng, uri, kind):
@@ -151,6 +188,10 @@ def mutate(rng, uri, kind):
         return uri.replace(host, host + ":80a", 1) if host else uri
     if kind == "empty":
         return ""
+    if kind == "drop_q":
+        return uri.split("?")[0]
+    if kind == "other_q":
+        return uri.split("?")[0] + "?tenant=red" if "?" in uri else uri + "?tenant=red"
     return uri
 
 
@@ -160,14 +201,15 @@ STATES = ["x\" autofocus onfocus=\"alert(1)", "\"", "a'b", "q\"q'q", "st", "\"><
 def cases(rng, tier):
     n = {"quick": 1, "thorough": 10, "search": 6}[tier]
     out = []
-    for cid in (WEB, NATIVE):
+    server()
+    for cid in (WEB, NATIVE, "dyn"):
         for entry in REG[cid]:
             for kind in MUTS:
                 for _ in range(n):
                     out.append({"t": "uri", "client": cid, "uri": mutate(rng, base_uri(entry), kind), "kind": kind})
     # combined mutations
     for _ in range(150 * n):
-        cid = rng.choice([WEB, NATIVE])
+        cid = rng.choice([WEB, NATIVE, "dyn"])
         u = base_uri(rng.choice(REG[cid]))
         for k in rng.sample(MUTS, 2):
             u = mutate(rng, u, k)
@@ -178,6 +220,8 @@ def cases(rng, tier):
             out.append({"t": "logout", "uri": mutate(rng, base_uri(entry), kind), "kind": kind, "state": rng.choice(STATES + [None])})
         for st in STATES:
             out.append({"t": "logout", "uri": base_uri(entry), "kind": "same", "state": st})
+    for kind in MUTS:
+        out.append({"t": "logout", "client": "dyn", "uri": mutate(rng, DYN_PL, kind), "kind": kind, "state": rng.choice(STATES + [None])})
     for _ in range(20 * n):
         u = base_uri(rng.choice(PLREG))
         for k in rng.sample(MUTS, 2):
@@ -222,7 +266,7 @@ def _logout(c):
     import base64 as _b64
     from idpyoidc.message.oidc.session import EndSessionRequest
     s = server()
-    w = logout_world()
+    w = logout_world(c.get("client"))
     ep = s.get_endpoint("session")
     args = {"id_token_hint": w["id_token"], "post_logout_redirect_uri": c["uri"]}
     if c["state"] is not None:
@@ -248,7 +292,7 @@ def impl(c):
     if c["t"] == "logout":
         return _logout(c)
     if c["t"] == "uri":
-        req = AuthorizationRequest(client_id=c["client"], redirect_uri=c["uri"], scope=["openid"], state="st", response_type="code", nonce="n")
+        req = AuthorizationRequest(client_id=DYN if c["client"] == "dyn" else c["client"], redirect_uri=c["uri"], scope=["openid"], state="st", response_type="code", nonce="n")
         try:
             pr = ep.parse_request(req.to_dict())
         except Exception as e:
@@ -304,7 +348,7 @@ def model_lines(c, obs):
     if c["t"] == "logout":
         if c["uri"] == "":
             return []
-        l = _verify_line(c["uri"], False, PLREG)
+        l = _verify_line(c["uri"], False, PLREGS[c.get("client")])
         if l is None:
             return []
         lines = [l]
@@ -412,7 +456,7 @@ def oracle(c, obs):
             return v
         if obs["first_hop"] != "https://example.com/verify_logout":
             v.append({"cls": "logout-first-hop-not-the-provider"})
-        reg = _registered(unquote(c["uri"]), PLREG)
+        reg = _registered(unquote(c["uri"]), PLREGS[c.get("client")])
         if reg is None:
             v.append({"cls": "accepted-unregistered", "kind": c["kind"], "uri": c["uri"], "which": "post_logout_redirect_uri"})
             return v
